@@ -12,7 +12,7 @@ MANIFEST = {
     'technique': 'bounded exhaustive enumeration of expression trees x spellings, parser output compared with reference printer/evaluator',
     'text': 'All expression trees with 1..3 operator nodes over the 15 operators (every ordered pair and triple, every shape; '
             'thorough adds all 4-node trees over one operator per rank), each in every spelling (minimal, sign-run-free, fully '
-            'parenthesised, spaced, every subtree redundantly wrapped), plus calls/array literals with empty arguments and separator-bearing '
+            'parenthesised, spaced with blanks, line breaks, tabs and CR LF, every subtree redundantly wrapped), plus calls/array literals with empty arguments and separator-bearing (also separator-only: "," ")" "(" ";") '
             'text through a probe function, are parsed by the real parser; exported text, value and received arguments are compared with a reference printer/evaluator.',
     'note': 'Trusted: ref/grammar.py printers and ref/scalar.py evaluator; sound sign-run foldings are accepted (DESIGN.md C01 Compare); x%% excluded.',
 }
